@@ -255,12 +255,15 @@ def _quadratic(ctx, res, f, F_of, what, rule):
                 if isinstance(s.value, ast.Call) and \
                         call_name(s.value) == 'where' and \
                         len(s.value.args) == 3 and any(
-                            unparse(a_) in ('np.inf', 'np.nan')
+                            unparse(a_) in ('np.inf', 'np.nan') or
+                            const_of(a_) == 0
                             for a_ in s.value.args[1:]):
                     # t = where(cond, inf, t): a root discarded for some rays
-                    # stays the root for the others
+                    # stays the root for the others; t = where(|t| < eps, 0, t)
+                    # snaps rounding noise, the other rays keep the root
                     keep = [a_ for a_ in s.value.args[1:]
-                            if unparse(a_) not in ('np.inf', 'np.nan')]
+                            if unparse(a_) not in ('np.inf', 'np.nan') and
+                            const_of(a_) != 0]
                     if len(keep) == 1 and unparse(keep[0]) == tg.id:
                         continue
                 if isinstance(s.value, ast.Call) and \
@@ -316,7 +319,8 @@ def _quadratic(ctx, res, f, F_of, what, rule):
                     if isinstance(s.value, ast.Call) and \
                             call_name(s.value) == 'where' and \
                             len(s.value.args) == 3 and any(
-                                unparse(a_) in ('np.inf', 'np.nan')
+                                unparse(a_) in ('np.inf', 'np.nan') or
+                                const_of(a_) == 0
                                 for a_ in s.value.args[1:]) and any(
                                 unparse(a_) == s.targets[0].id
                                 for a_ in s.value.args[1:]):
@@ -1585,10 +1589,10 @@ def quadratic_stable(ctx):
     f = P.func('StandardGeometry.distance')
     res.saw(f)
     defs = {}
-    for st in ast.walk(f.node):
-        if isinstance(st, ast.Assign) and len(st.targets) == 1 and \
-                isinstance(st.targets[0], ast.Name):
-            defs.setdefault(st.targets[0].id, st.value)
+    for st in sorted((n_ for n_ in ast.walk(f.node)
+                      if isinstance(n_, ast.Assign)), key=lambda n_: n_.lineno):
+        if len(st.targets) == 1 and isinstance(st.targets[0], ast.Name):
+            defs.setdefault(st.targets[0].id, st.value)    # first in the text
     a_def = defs.get('a')
     if a_def is None:
         raise AnalysisError('StandardGeometry.distance: coefficient a not '
@@ -1783,5 +1787,58 @@ def chebyshev_edge(ctx):
     return res
 
 
-RULES = [conic_branch, chebyshev_edge, lossless_without_k, quadratic_stable, flat_base, newton_unconverged, c01_media_chain, no_stale, records, scatter_unit, snell_law, reflect_law, align_normal, on_surface, normal_gradient,
+def contact_tolerance(ctx):
+    """sequential tracing allows coincident surfaces (a stop on a lens face,
+    a zero air gap): the distance to the next surface is then 0 up to
+    rounding, of either sign.  The 'behind the ray' masks (t < 0 -> nan / inf)
+    must not act on rounding noise: either t is snapped to 0 inside a
+    tolerance before the mask, or the mask compares with a negative
+    tolerance."""
+    P = ctx.P
+    res = Result('CONTACT-TOLERANCE', 'a ray that already lies on the next '
+                 'surface (|t| below a rounding tolerance) is not discarded '
+                 'as lying behind the ray')
+    for q, names in (('Plane.distance', ['t']),
+                     ('StandardGeometry.distance', ['t1', 't2'])):
+        f = P.func(q)
+        res.saw(f)
+        stmts = sorted((n_ for n_ in ast.walk(f.node)
+                        if isinstance(n_, ast.Assign)),
+                       key=lambda n_: n_.lineno)
+        for nm in names:
+            mask = [st for st in stmts if isinstance(
+                st.targets[0], ast.Subscript) and
+                unparse(st.targets[0].value) == nm and isinstance(
+                    st.targets[0].slice, ast.Compare) and
+                isinstance(st.targets[0].slice.ops[0], (ast.Lt, ast.LtE))]
+            if not mask:
+                res.ok(f'{q}: no sign mask on {nm}')
+                continue
+            m0 = mask[0]
+            lim = const_of(m0.targets[0].slice.comparators[0])
+            tolerant = lim is not None and float(lim) < 0
+            snapped = any(
+                st.lineno < m0.lineno and isinstance(st.targets[0], ast.Name)
+                and st.targets[0].id == nm and isinstance(st.value, ast.Call)
+                and unparse(st.value.func) == 'np.where' and
+                len(st.value.args) == 3 and
+                f'np.abs({nm})' in unparse(st.value.args[0]) and
+                const_of(st.value.args[1]) == 0 and
+                unparse(st.value.args[2]) == nm for st in stmts)
+            if tolerant or snapped:
+                res.ok(f'{q}: rounding noise in {nm} is not "behind the ray"')
+            else:
+                res.fail(ctx.finding(
+                    'CONTACT-TOLERANCE', f, m0,
+                    f'{q} discards {nm} < 0 exactly: on a surface coincident '
+                    f'with the previous one {nm} is +-1e-16, and the rays '
+                    f'with a negative rounding error are lost (contact '
+                    f'doublet with zero air gap: 12 of 127 rays; stop on a '
+                    f'tilted plate face: 24 of 127) or sent to the far side '
+                    f'of the sphere',
+                    construct=f'{q}: exact sign mask on {nm}'))
+    return res
+
+
+RULES = [contact_tolerance, conic_branch, chebyshev_edge, lossless_without_k, quadratic_stable, flat_base, newton_unconverged, c01_media_chain, no_stale, records, scatter_unit, snell_law, reflect_law, align_normal, on_surface, normal_gradient,
          frames, trace_order, same_medium, nonfinite]
